@@ -102,7 +102,9 @@ def cmdParse : List String → String
       let r := parseWith g ⟨g, dk⟩ pk (parseIntList prior) text
       let doc := if pk == .omni then omniPrepass text else text
       let errs := "[" ++ ",".intercalate (r.errors.map toString) ++ "],\"sites\":[" ++
-        ",".intercalate (r.sites.map fun x => "\"" ++ x ++ "\"") ++ "]"
+        ",".intercalate (r.sites.map fun x => "\"" ++ x ++ "\"") ++ "],\"examined\":" ++
+        (match r.last with | some t => toString t.last | none => "-1") ++
+        ",\"exhausted\":" ++ (if r.exhausted then "true" else "false")
       match r.outcome with
       | .ok items =>
         "{\"ok\":" ++ jVal (.cont .module items) ++ ",\"errors\":" ++ errs ++ "}"
